@@ -450,7 +450,10 @@ func bannerText(kind string, hh ...bool) string {
 	switch kind {
 	case "1:00":
 		msg = "SHUTDOWN in 0:01:00"
-	case "aborted":
+	case "aborted", "aborted-async":
+		// "aborted-async": the same text, shown asynchronously at any
+		// command like the countdown banners (somebody cancelled and
+		// re-armed the reload from another session).
 		msg = "SHUTDOWN ABORTED"
 	}
 	if len(hh) > 0 && hh[0] {
